@@ -14,4 +14,14 @@ CHECKS = {
         technique="runtime contracts (icontract post-conditions on encode_token / StringActionParameter.encode) + encode-parse embedding oracle over exhaustive and random token workloads",
         text="Held on every Unicode scalar value as a token and on every short string over the structurally significant alphabet (both enumerated completely), plus seeded random long strings, at every argument position incl. nested links, header parameters and the list form. Exploration: a long input outside these shapes can be missed.",
         note="Trusts urllib.parse.quote/unquote and pyparsing as shipped; lone surrogates are outside the quantifier."),
+    "C02": dict(
+        category=_EXPL, design_ref="DESIGN.md section 4, C02",
+        technique="runtime contract (icontract post-condition on liquer.parser.parse, rebound in every importing module): canonical text re-parses to the same structure and re-encodes identically; bounded-exhaustive token sequences + grammar-directed random sentences + mutations",
+        text="Every accepted text met by the workload (all concatenations of up to 3/4 symbols of a 28-symbol token alphabet, tens of thousands of random grammar sentences with nested links, headers of level 1-3, -R headers, resource paths, file names) is checked by the contract. Exploration: unusual long sentences can be missed.",
+        note="Structure comparison ignores positions only; trusts pyparsing. One genuine grammar ambiguity is a listed known finding."),
+    "C19": dict(
+        category=_EXPL, design_ref="DESIGN.md section 4, C19",
+        technique="runtime contracts (icontract post-conditions on ResourceQuerySegment.to_absolute and Query.to_absolute) against a component-list normalisation model; exhaustive small paths x directories, random multi-segment queries; idempotence and untouched-segment conditions",
+        text="All 31 directories x all paths of up to 4 (quick) / 6 (thorough) components over {a,b,.,..,x.y} enumerated completely; random queries with several named resource segments, header parameters and transformations. Exploration beyond those bounds.",
+        note="Model is 15 lines (anchor on leading '.'/'..', pop on '..', reject above root); directory argument assumed normalised."),
 }
